@@ -141,7 +141,7 @@ def run(case):
     m_dragon.time = m_base.time = Time()
     ru.zmq.Pipe = PipeIn
     running, done_sent = set(), set()
-    n_cancel = n_limit = 0
+    n_cancel = 0
     try:
         def runtime():
             """the Dragon runtime takes what the executor sent"""
@@ -163,12 +163,6 @@ def run(case):
         def watch():
             try:
                 comp._dragon_watch('fake://in')
-            except _Stop:
-                pass
-
-        def limits():
-            try:
-                comp._to_watcher()
             except _Stop:
                 pass
 
